@@ -90,6 +90,15 @@ def ff_design(rng, name):
     L += [f's.orf = OutPort( 8 )', f'connect( s.orf, s.rf[{m-1}] )']
     blocks.append([f'for i in range({m}):', '  if s.i0[i]:', f'    s.rf[i] <<= s.rf[{m-1} - i] + s.i0', '  elif s.en:', '    s.rf[i] <<= s.i0'])
     feats.add('ff-loop-with-branch')
+  # a list of registers whose elements are assigned one by one through CONSTANT indices, the last through a negative one
+  if rng.random() < 0.5:
+    m = rng.randrange(3, 6)
+    L += [f's.nl = [ Wire( 8 ) for _ in range({m}) ]', 's.onl = OutPort( 8 )', '@update', 'def c_nl():', '  s.onl @= s.nl[-1] ^ s.nl[-2]']
+    # (one block: pymtl3 counts a negative index as "any element", so separate blocks would be multiple writers)
+    blk = ['s.nl[0] <<= s.i0'] + [f's.nl[{j}] <<= s.nl[{j-1}] + {j}' for j in range(1, m - 1)]
+    blk += [f's.nl[-1] <<= s.nl[-2] ^ s.i0'] if rng.random() < 0.7 else ['if s.en:', f'  s.nl[-1] <<= s.nl[{m-2}]']
+    blocks.append(blk)
+    feats.add('negative-constant-index')
   # reset-aware registers; a REGISTERED reset forwarded through a comb block clears a counter (values change during the
   # three reset cycles and reach other update_ff blocks only through combinational logic)
   if rng.random() < 0.6:
@@ -125,6 +134,33 @@ def ff_design(rng, name):
   else:
     g.src = sc.STRUCT_SRC + f'\nclass {name}( Component ):\n  def construct( s ):\n{body}\n  def line_trace( s ):\n    return ""\n'
   g.source = lambda: g.src
+  return g
+
+def farm_design(rng, name):
+  """many registers in many components (hundreds of flip statements): K cells of R registers each, chained"""
+  K, R = rng.randrange(28, 46), rng.randrange(7, 13)
+  cell = f'''
+class Cell( Component ):
+  def construct( s, R, k ):
+    s.in_ = InPort( 8 ); s.en = InPort( 1 ); s.out = OutPort( 8 )
+    s.r = [ Wire( 8 ) for _ in range(R) ]
+    connect( s.out, s.r[R-1] )
+    @update_ff
+    def up_cell():
+      if s.en:
+        s.r[0] <<= s.in_ + k
+      for i in range(R-1):
+        s.r[i+1] <<= s.r[i] ^ i
+'''
+  L = ['s.i0 = InPort( 8 )', 's.i1 = InPort( Pt )', 's.en = InPort( 1 )', 's.o0 = OutPort( 8 )',
+       f's.cell = [ Cell( {R}, k ) for k in range({K}) ]', 'connect( s.cell[0].in_, s.i0 )', f'connect( s.o0, s.cell[{K-1}].out )']
+  L += [f'for k in range({K}):', '  connect( s.cell[k].en, s.en )', f'for k in range({K-1}):', '  connect( s.cell[k+1].in_, s.cell[k].out )']
+  body = '\n'.join('    ' + l for l in L)
+  class G: pass
+  g = G(); g.name = name; g.inputs = [('i0', ('bits', 8)), ('i1', ('struct', 'Pt')), ('en', ('bits', 1))]; g.features = {f'register-farm'}
+  g.src = sc.STRUCT_SRC + cell + f'\nclass {name}( Component ):\n  def construct( s ):\n{body}\n  def line_trace( s ):\n    return ""\n'
+  g.source = lambda: g.src
+  g.nregs = K * R
   return g
 
 def oracle_tick(ctx, top, g, fpl, src, cyc, both=False):
@@ -169,7 +205,9 @@ def run(ctx):
   coq_cases, coq_meta = [], []
   _devnull = io.StringIO()
   for k in range(ndes):
-    if k % 3 == 2:
+    if k % 50 == 7:
+      g = farm_design(random.Random(rng.randrange(1 << 30)), f'F{k}')
+    elif k % 3 == 2:
       g = sc.Gen(random.Random(rng.randrange(1 << 30)), f'F{k}', size='medium').build()
     else:
       g = ff_design(random.Random(rng.randrange(1 << 30)), f'F{k}')
@@ -187,33 +225,45 @@ def run(ctx):
       insts.append(('dynamic:ffrev', sc.build(cls, 'dynamic', ff_perm=list(range(nff))[::-1])))
       # the same pass groups with line tracing switched on (the design has a line_trace method): tracing must not change what is simulated
       insts += [(s_ + ':linetrace', sc.build(cls, s_, seed=0, trace=True)) for s_ in ('simple', 'dynamic', 'unroll', 'heuristic', 'mamba')]
+      # ... and with an ACTIVE-LOW reset: sim_reset holds reset at 0 for three edges and releases it to 1
+      insts += [(s_ + ':activelow', sc.build(cls, s_, seed=0, reset_high=False)) for s_ in ('simple', 'dynamic', 'unroll', 'heuristic', 'mamba')]
+      OL = sc.build(cls, 'simple', seed=0); fplL = sc.Footprints(OL)
       seed = rng.randrange(1 << 30)
       with contextlib.redirect_stdout(io.StringIO()):
         for _, t in insts: t.sim_reset()
+      OL.reset @= 0
+      for c_ in range(3): oracle_tick(ctx, OL, g, fplL, src, -3 + c_)
+      OL.reset @= 1
+      for b_ in OL._sched.update_schedule: b_()
+      exp0L = sc.snapshot(OL)
       # sim_reset is three clock edges with reset high (combinational logic evaluated before each), then reset low: the oracle
       # performs exactly that with its own edge
       O.reset @= 1
       for c_ in range(3): oracle_tick(ctx, O, g, fpl, src, -3 + c_)
       O.reset @= 0
       for b_ in O._sched.update_schedule: b_()
-      exp0 = sc.snapshot(O)
+      exp0H = sc.snapshot(O)
       for nm, t in insts:
         got0 = sc.snapshot(t)
+        exp0 = exp0L if nm.endswith(':activelow') else exp0H
         if got0 != exp0:
           ks = [x for x in exp0 if exp0[x] != got0.get(x)]
           ctx.violation(f'C07:reset-sequence:{g.name}:{nm}', f'{g.name} under {nm}: the state after sim_reset() differs from three edges with reset high followed by reset low on {ks[:4]} (expected/observed {[(exp0[x], got0.get(x)) for x in ks[:4]]})',
                         {'design_source': src, 'variant': nm, 'signals': {x: (exp0[x], got0.get(x)) for x in ks[:8]}})
           break
-      rs = [random.Random(seed) for _ in insts]; ro = random.Random(seed)
+      rs = [random.Random(seed) for _ in insts]; ro = random.Random(seed); rl = random.Random(seed)
       dead = set()
       for c in range(cycles):
         sc.drive_inputs(O, g, ro)
-        exp = oracle_tick(ctx, O, g, fpl, src, c)
+        expH = oracle_tick(ctx, O, g, fpl, src, c)
+        sc.drive_inputs(OL, g, rl)
+        expL = oracle_tick(ctx, OL, g, fplL, src, c)
         for j, (nm, t) in enumerate(insts):
           sc.drive_inputs(t, g, rs[j])
           if j in dead: continue
           with contextlib.redirect_stdout(_devnull): t.sim_tick()
           got = sc.snapshot(t)
+          exp = expL if nm.endswith(':activelow') else expH
           ctx.count((g.name, nm, c), True, cls='tick:' + nm.split(':')[0])
           if got != exp:
             ks = [x for x in exp if exp[x] != got.get(x)]
